@@ -25,7 +25,7 @@ func init() {
 		ID:    "C12",
 		Level: "fault_enumeration",
 		Rule: "a real p9p.CSession client with P in {1,2,3,5,8,16} pending calls (unique ids) against a scripted fake server on a fault-injecting in-memory connection. Fault enumeration over a recorded fault-free run of the same scenario: the inbound stream is failed at EVERY byte offset k of the reply stream (error and EOF flavours), " +
-			"the connection is closed by the peer after every number of replies, EVERY client write j is failed (0 or partial bytes passed on), the session context is cancelled after every number of replies, and every single pending call is cancelled on its own; read errors come as plain errors and as permanent net.Errors (a client that keeps reading a permanently failed connection is detected by counting its reads after the failure, not by a timer); a call with a deadline context completes, the connection's (virtual) clock then passes that deadline, and a call without deadline must still go through on a connection that honours write deadlines; while one request write is stalled inside the connection, further calls are issued and their contexts ended (or had ended before): each must return. " +
+			"the connection is closed by the peer after every number of replies, EVERY client write j is failed (0 or partial bytes passed on), the session context is cancelled after every number of replies, and every single pending call is cancelled on its own; read errors come as plain errors and as permanent net.Errors (a client that keeps reading a permanently failed connection is detected by counting its reads after the failure, not by a timer); a call with a deadline context completes, the connection's (virtual) clock then passes that deadline, and a call without deadline must still go through on a connection that honours write deadlines; while one request write is stalled inside the connection, further calls are issued and their contexts ended (or had ended before): each must return; a call cancelled unanswered is followed by 66 000 further calls (tag wrap) and then by its late reply. " +
 			"Hostile-peer sampling: valid frames with unknown / repeated / NOTAG / neighbouring tags, every R- and T-type as reply to every request kind (once, or up to four times on the same tag), Rversion mid-session, the Tversion of the handshake answered with frames of other types, abnormal frames, garbage or odd Rversions, frames from the abnormal classes (length prefix 0-3, truncated body, hostile inner lengths, unknown type, oversize), malformed directory data under a CFileSys listing (entry size and inner length fields claiming anything, cut entries, garbage) and pure garbage, followed or not by the correct replies. " +
 			"Oracle: the worker process survives (a crash is attributed to the logged case); at quiescence every pending call has returned; calls whose reply arrived intact before the fault return their own id, the others an error; a later call returns an error; a per-call cancel returns and leaves the other calls' results intact; a wrong-typed reply surfaces as an error. " +
 			"non-trivial = >= 1 call pending at the fault / hostile frame; distinct by (fault kind, index, pending count) or (frame class, request kind, pending count)",
@@ -39,7 +39,7 @@ func init() {
 		Shards:    shards(8, 16),
 		Timeout:   timeouts(12*time.Minute, 90*time.Minute),
 		MinEvals:  200,
-		Required:  []string{"fault:read-error", "fault:read-eof", "fault:peer-close", "fault:write-fail", "fault:ctx-cancel", "fault:call-cancel", "hostile:unknown-tag", "hostile:repeated-tag", "hostile:wrong-type", "hostile:abnormal-frame", "hostile:garbage", "hostile:overlong-rread", "hostile:dir-data", "hostile:handshake", "hostile:wrong-type-repeated", "fault:local-failure", "fault:read-neterror", "fault:deadline-then-plain", "fault:cancel-while-writer-busy", "later_call_checked", "pending_calls_returned"},
+		Required:  []string{"fault:read-error", "fault:read-eof", "fault:peer-close", "fault:write-fail", "fault:ctx-cancel", "fault:call-cancel", "hostile:unknown-tag", "hostile:repeated-tag", "hostile:wrong-type", "hostile:abnormal-frame", "hostile:garbage", "hostile:overlong-rread", "hostile:dir-data", "hostile:handshake", "hostile:wrong-type-repeated", "fault:local-failure", "fault:read-neterror", "fault:deadline-then-plain", "fault:cancel-while-writer-busy", "fault:cancel-then-long-history", "later_call_checked", "pending_calls_returned"},
 		Run:       runC12,
 	})
 }
@@ -232,6 +232,11 @@ func runC12(w *mon.W) {
 		idx++
 		if w.Mine(idx) {
 			c12HostileHandshake(w, i)
+		}
+	}
+	for i := 0; i < w.Scale(1, 2)*w.NShards; i++ {
+		if w.Mine(i) && i >= 5 && i < 5+w.Scale(1, 3) {
+			c12CancelThenLongHistory(w, i)
 		}
 	}
 }
@@ -863,6 +868,82 @@ func c12DeadlineThenPlain(w *mon.W, P, variant, scen int) {
 	sets, _ := e.h.cli.DeadlineStats()
 	w.Max("write_deadline_sets", int64(sets))
 	w.NT(fmt.Sprintf("deadline/%d/%d", P, variant))
+}
+
+// c12CancelThenLongHistory: a call is cancelled by its own context while the peer has not
+// answered it; 66 000 further calls follow on the same session (the tag counter wraps) and
+// none of them may be disturbed: not by the cancelled call's tag being handed out again, and
+// not by its reply when that finally arrives.
+func c12CancelThenLongHistory(w *mon.W, no int) {
+	desc := fmt.Sprintf("long history #%d: a call is cancelled unanswered, then 66000 calls, then its late reply", no)
+	w.Case("C12 %s", desc)
+	e := newC12(w, desc)
+	if e == nil {
+		return
+	}
+	defer e.h.close()
+	w.Eval()
+	w.Count("fault:cancel-then-long-history", 1)
+	cs := e.launch(1, []callKind{ckStat})
+	if !settle() || !e.absorb(cs) {
+		return
+	}
+	x := cs[0]
+	x.cancel()
+	if !settle() {
+		return
+	}
+	var mu sync.Mutex
+	reissued := 0
+	e.h.mu.Lock()
+	e.h.onReq = func(fc *p9p.Fcall) {
+		if fc.Tag == x.req.Tag {
+			// the unanswered call's tag on a new request: the peer, which still owes a reply on that
+			// tag, answers the old request first
+			mu.Lock()
+			reissued++
+			mu.Unlock()
+			e.h.reply(replyFor(x.req, x.uid))
+		}
+		e.h.reply(replyFor(fc, uidOfRequest(fc)))
+	}
+	e.h.mu.Unlock()
+	done := make(chan struct{})
+	bad := ""
+	go func() {
+		defer close(done)
+		for uid := 1000; uid < 1000+66000; uid++ {
+			r := doCall(context.Background(), e.h.sess, callKind(uid%int(nCallKinds)), uid)
+			if r.err != nil || r.uid != uid {
+				bad = fmt.Sprintf("call uid=%d (%d calls after the cancelled one) returned uid=%d err=%v", uid, uid-1000, r.uid, r.err)
+				return
+			}
+		}
+	}()
+	q := mon.AwaitQuiesceLong(done, 20*time.Minute)
+	if q.Hung {
+		e.bad("hang", "call-did-not-return:long-history", "a call of the long history does not return; blocked at %s", q.Sites)
+		return
+	}
+	if !q.Done {
+		w.Inconclusive("watchdog")
+		return
+	}
+	mu.Lock()
+	n := reissued
+	mu.Unlock()
+	if bad != "" {
+		e.bad("mismatch", "cancel-disturbed-other-call", "%s; the cancelled call's tag %d was put on %d new request(s) while its reply was still owed", bad, x.req.Tag, n)
+		return
+	}
+	// the late reply: nobody is waiting for it any more, and nobody may be hit by it
+	e.h.reply(replyFor(x.req, x.uid))
+	r := doCall(context.Background(), e.h.sess, ckStat, 99999)
+	if r.err != nil || r.uid != 99999 {
+		e.bad("mismatch", "cancel-disturbed-other-call", "after the cancelled call's late reply a new call returned uid=%d err=%v", r.uid, r.err)
+		return
+	}
+	w.NT(fmt.Sprintf("longhistory/%d", no))
 }
 
 // ---- hostile peer
